@@ -326,6 +326,22 @@ def _dep_key(cmd, depfile):
     return h.hexdigest()
 
 
+def _deps_newer_than(depfile, t):
+    try:
+        txt = open(depfile).read().replace("\\\n", " ")
+    except OSError:
+        return True
+    for line in txt.splitlines():
+        if ":" in line:
+            for d in line.split(":", 1)[1].split():
+                try:
+                    if os.path.getmtime(d) >= t:
+                        return True
+                except OSError:
+                    return True
+    return False
+
+
 def compile_obj(src, obj, flags):
     """Compile src -> obj unless an identical compilation (same command, same content of every
     dependency, by hash) produced the existing obj.  Returns (obj, rebuilt).  Outputs are written
@@ -345,6 +361,7 @@ def compile_obj(src, obj, flags):
     suffix = ".tmp%d_%d" % (os.getpid(), _tlc_counter[0] + id(src) % 100000)
     tobj, tdep = obj + suffix + ".o", dep + suffix
     cmd = flags + ["-MMD", "-MF", tdep, "-MT", obj, "-c", src, "-o", tobj]
+    t_start = time.time()
     p = subprocess.run(cmd, stdout=subprocess.PIPE, stderr=subprocess.STDOUT, text=True, errors="replace")
     if p.returncode != 0:
         for t in (tobj, tdep):
@@ -354,6 +371,13 @@ def compile_obj(src, obj, flags):
                 pass
         raise Infra("compile failed: %s\n%s" % (src, p.stdout[-6000:]))
     k = _dep_key(ident, tdep)
+    # a dependency edited while the compiler ran: the object may be older than the key says
+    if k and _deps_newer_than(tdep, t_start - 2.0):
+        k = None
+        try:
+            os.unlink(keyf)
+        except OSError:
+            pass
     os.replace(tobj, obj)
     os.replace(tdep, dep)
     if k:
